@@ -588,6 +588,11 @@ def make_matchfn(node, element, value, context):
 
 @evaluate.register_action("SYMBOL")
 def make_symbol(node, context):
+    if node.type == "OPERATOR":
+        # An operator that stands alone (or whose operands are all missing)
+        raise node.location.syntax_error(
+            f"Operator `{node.value}` is missing its operand"
+        )
     if node.value == "*":
         element = Element(name=None)
     else:
